@@ -194,7 +194,22 @@ def multiset_sequences(alphabet, maxlen, maxrep=2):
                 yield seq
 
 
+def with_early_data_variants(seqs, enabled=True):
+    """each short sequence again with its EncryptedExtensions carrying the early_data extension ("EEed"), which nothing asked for when no PSK was
+    accepted.  C11 is about the order of messages: "EEed" counts as an EncryptedExtensions message, and the flight is legal iff it is legal with
+    a plain one (whether an unsolicited extension must be refused is outside the statement)"""
+    for seq in seqs:
+        yield seq
+        if enabled and "EE" in seq and len(seq) <= 4:
+            yield tuple("EEed" if x == "EE" else x for x in seq)
+
+
 def legal_server_flight(seq, psk):
+    seq = tuple("EE" if x == "EEed" else x for x in seq)
+    return _legal_server_flight(seq, psk)
+
+
+def _legal_server_flight(seq, psk):
     if psk is True:
         return seq == ("EE", "Fin")
     return seq in (("EE", "Cert", "CV", "Fin"), ("EE", "CR", "Cert", "CV", "Fin"))
@@ -258,7 +273,7 @@ def server_flight_sequences(ctx, maxlen, part, nparts, psk, leaf="ed25519"):
             if c.done():
                 ctx.violation("client-finished-after-illegal-server-flight", "the client completed a handshake in which the server selected PSK identity 1 although only identity 0 was offered", case)
     i = 0
-    for seq in multiset_sequences(alphabet, maxlen):
+    for seq in with_early_data_variants(multiset_sequences(alphabet, maxlen), enabled=psk is not True):
         if "CV" in seq and "CVbad" in seq:
             continue
         i += 1
@@ -280,6 +295,8 @@ def server_flight_sequences(ctx, maxlen, part, nparts, psk, leaf="ed25519"):
             for k, sym in enumerate(seq):
                 if sym == "EE":
                     m = s.encrypted_extensions()
+                elif sym == "EEed":
+                    m = s.encrypted_extensions(early_data=True)
                 elif sym == "CR":
                     m = s.certificate_request()
                 elif sym == "Cert":
@@ -472,7 +489,7 @@ def quic_flight_sequences(ctx, maxlen, part, nparts, adversary, only=None):
     alphabet = ["EE", "CR", "Cert", "CertEmpty", "CV", "CVbad", "Fin"]
     nxt = {("EE", "EE"): "CR|Cert", ("CR|Cert", "CR"): "Cert", ("CR|Cert", "Cert"): "CV", ("Cert", "Cert"): "CV", ("CV", "CV"): "Fin", ("Fin", "Fin"): "done"}
     i = 0
-    for seq in multiset_sequences(alphabet, maxlen) if only is None else [tuple(only)]:
+    for seq in with_early_data_variants(multiset_sequences(alphabet, maxlen)) if only is None else [tuple(only)]:
         if "CV" in seq and "CVbad" in seq:
             continue
         i += 1
@@ -490,6 +507,8 @@ def quic_flight_sequences(ctx, maxlen, part, nparts, adversary, only=None):
                 saved = ref.ks.copy()
                 if sym == "EE":
                     m = ref.encrypted_extensions()
+                elif sym == "EEed":
+                    m = ref.encrypted_extensions(early_data=True)
                 elif sym == "CR":
                     m = ref.certificate_request()
                 elif sym == "Cert":
@@ -502,7 +521,7 @@ def quic_flight_sequences(ctx, maxlen, part, nparts, adversary, only=None):
                     m = ref.certificate_verify(private_key=other_key, algorithm=0x0807)
                 else:
                     m = ref.finished()
-                to = nxt.get((st, sym))
+                to = nxt.get((st, "EE" if sym == "EEed" else sym))
                 if to is None:
                     if adversary == "accepted":
                         ref.ks = saved
